@@ -304,7 +304,7 @@ def zip_operands(t):
     return [t]
 
 
-def elem_canon(ctx, b, an, keyfn):
+def elem_canon(ctx, b, an, keyfn, allow_take=False):
     """One view of element-wise loops over several slices for both spellings: a function that rewrites a term so that
     the current element of the slice whose container term has key k (keyfn(container) -> k or None) reads ('elem', k) --
       zip form:   *<path of the Some payload of next(zip(..))>, the path decoded against the zip tree; a leaf of the tree
@@ -334,6 +334,9 @@ def elem_canon(ctx, b, an, keyfn):
             return zip_tree(t[2][0])
         if is_call(t, 'Iterator::zip') and len(t[2]) == 2:
             return ('zip', zip_tree(t[2][0]), zip_tree(t[2][1]))
+        if allow_take and is_call(t, 'Iterator::take') and len(t[2]) == 2:
+            # the first n elements of the inner iterator are elements of the inner iterator (how many is the caller's clause)
+            return zip_tree(t[2][0])
         if is_call(t, 'Iterator::filter') and len(t[2]) == 2:
             # the elements that get through are elements of the inner iterator; the predicate holds for each of them
             filters.append(t[2][1])
@@ -1355,7 +1358,7 @@ def r05_2(ctx):
         if top_clip_field([x for x in subterms(c)], 'mask'):
             return 'prev'
         return None
-    canon = elem_canon(ctx, b, an, keyfn)
+    canon = elem_canon(ctx, b, an, keyfn, allow_take=True)     # the number of elements is the bound clause below
     zipped_combine = False
     for a0, v0, pt0, kind0 in an.stores:
         if kind0 != 'assign' or canon(strip_all(a0)) != ('elem', 'new'):
@@ -1380,6 +1383,11 @@ def r05_2(ctx):
             f3 = dict(rg[4])
             return 'end' in f3 and poly(f3['end']) == W * H and ('start' not in f3 or const_val(f3['start']) == 0)
         okl = all(full(rg) for k3 in ('new', 'prev') for rg in canon.ranges[k3])
+    if not okl:
+        # ... or the zipped walk is cut with .take(width*height)
+        for bi2, d2, ct2 in calls_in(ctx, b):
+            if d2 and d2.endswith('Iterator::take') and len(ct2[2]) == 2 and poly(ct2[2][1]) == W * H and any(is_call(y, 'Iterator::zip') for y in subterms(ct2[2][0])):
+                okl = True
     ctx.check(okl, R, key + '|combine loop bound', b.loc(), 'combine loop runs over 0..width*height', 'the mask-combining loop does not run over 0..width*height')
     # R05.5 writer side: full-surface, origin 0 blitter
     news = [ct2 for bi2, d, ct2 in calls_in(ctx, b) if d == 'raqote::blitter::MaskSuperBlitter::new']
